@@ -154,9 +154,21 @@ func c19child(args []string) {
 		reg.MustRegister(sm)
 		par(8, func(g int) {
 			for i := 0; i < iters/3; i++ {
-				if g == 0 {
+				if g <= 1 { // two scrapers: scrapes overlap each other and the closes below
 					reg.Gather()
 					continue
+				}
+				// many distinct clients open at any time, so that a scrape has work to do while the
+				// last connections of other clients close
+				var held []func()
+				for k := 0; k < 12; k++ {
+					ipk := net.IPv4(198, 51, byte(g), byte(k))
+					c2 := sm.AddOpenTCPConnection(&fakeConn{remote: &net.TCPAddr{IP: ipk, Port: 3000 + k}, local: &net.TCPAddr{IP: net.IPv4(127, 0, 0, 1), Port: 9}})
+					c2.AddAuthenticated("k2")
+					held = append(held, func() { c2.AddClosed("OK", metrics.ProxyMetrics{}, time.Millisecond) })
+				}
+				for _, cl := range held {
+					cl()
 				}
 				ip := net.IPv4(203, 0, 113, byte(g%3))
 				cm := sm.AddOpenTCPConnection(&fakeConn{remote: &net.TCPAddr{IP: ip, Port: 1000 + g}, local: &net.TCPAddr{IP: net.IPv4(127, 0, 0, 1), Port: 9}})
